@@ -13,7 +13,7 @@ PROPS['C12'] = dict(
     level_text='Every solver class (SymEigs, HermEigs, SymEigsShift, GenEigs, GenEigsRealShift, GenEigsComplexShift, SymGEigs Cholesky/RegularInverse, '
                'SymGEigsShift ShiftInvert/Buckling/Cayley, Davidson, PartialSVD square/tall/wide; plus sparse-wrapper and user-functor operators) is constructed for every '
                'n in 1..12 and every (nev, ncv) in [-2, n+3]^2 (Buckling/Cayley/ShiftInvert additionally with sigma in {-0.5, +0, -0, 1e-300}); compute() is called with all 9 x 9 '
-               '(selection, sorting) SortRule pairs on a valid n = 10 solver; init() is given three kinds of zero vector and three kinds of nonzero vector for every n up to 12; the '
+               '(selection, sorting) SortRule pairs on valid solvers of size 7, 10 and 12; init() is given three kinds of zero vector and three kinds of nonzero vector for every n up to 12; the '
                'ten wrapper constructors whose contract is a square matrix get every shape in [0,4]^2 (SymShiftInvert every (A,B) shape pair in [1,4]^4). The verdict of each call is '
                'compared with a predicate written from the documentation: reject => exactly std::invalid_argument (any other exception type or an Eigen assertion is a violation), '
                'accept => no exception (and the default init() is accepted). After a rejected call the number of live heap blocks must be back to its value before the operators were '
@@ -26,19 +26,19 @@ PROPS['C12'] = dict(
                'rule is compared in values/vectors/info/operation count only (the rejected call may legitimately have iterated).',
     units=_c12_units(),
     runs=dict(
-        quick=[dict(unit='c12_' + t, cases=6000) for t in 'abcd'],
-        thorough=[dict(unit='c12_' + t, cases=40000, workers=4, set=dict(nmax=160, shape_max=24, exh_part='{w}', exh_parts='{nw}')) for t in 'abcd'],
+        quick=[dict(unit='c12_' + t, cases=25000) for t in 'abcd'],
+        thorough=[dict(unit='c12_' + t, cases=100000, workers=4, set=dict(nmax=160, shape_max=24, exh_part='{w}', exh_parts='{nw}')) for t in 'abcd'],
     ),
     exhaustive_units=['c12_a', 'c12_b', 'c12_c', 'c12_d'],
-    min=dict(quick=dict(cases=90000, nontrivial=30000,
+    min=dict(quick=dict(cases=150000, nontrivial=60000,
                         classes={'boundary_accept': 5000, 'boundary_reject': 8000, 'ctor_accept': 6000, 'rules_accept': 1500, 'rules_reject_selection': 1000,
                                  'rules_reject_sorting': 1500, 'rules_reject_both': 1000, 'follow/compute_again': 2000, 'follow/init+compute': 2000,
                                  'rejected_call_after_completed_run': 4000, 'zero_start/-0': 1000, 'nonzero_start/1e-100*(1+i%3)': 1000,
                                  'sigma/sigma=0': 5000, 'sigma/sigma=-0.0': 5000, 'wrapper_reject': 1500, 'wrapper_accept': 150, 'n>12': 2000,
                                  'ctor/PartialSVDSolver<MatrixXd>': 6000, 'ctor/DavidsonSymEigsSolver<DenseSymMatProd>': 2000}),
-             thorough=dict(cases=600000, nontrivial=150000)),
+             thorough=dict(cases=1500000, nontrivial=500000)),
     rule='exhaustive layer: (solver kind, variant, n in [1,12], nev, ncv in [-2,n+3]) for 18 solver/operator kinds; (kind, selection, sorting, follow-up in {init+compute, compute again}, '
-         'rejected call on a fresh object / after a completed run) at n = 10; (kind, n, zero-vector kind, nonzero-vector kind, fresh / after a completed run); (wrapper, shape). rapidcheck layer: the same '
+         'rejected call on a fresh object / after a completed run) at n in {7, 10, 12}; (kind, n, zero-vector kind, nonzero-vector kind, fresh / after a completed run); (wrapper, shape). rapidcheck layer: the same '
          'case forms with n <= 64, random content seed, nev/ncv uniform or anchored at a documented bound +-3. Non-trivial = the verdict changes within distance 1 (some neighbour in the '
          '(nev, ncv) 8-neighbourhood, or sigma zero <-> nonzero, or one matrix dimension +-1), every rule-pair case and every start-vector case; distinct = enumerated (distinct by '
          'construction) or 64-bit hash of the draw log.',
